@@ -10,6 +10,7 @@ import (
 	"pgregory.net/rapid"
 
 	"verif/harness/cov"
+	"verif/harness/gen"
 	"verif/harness/ref"
 )
 
@@ -171,6 +172,6 @@ func TestC16_Random(t *testing.T) {
 			cov.Sample("c16.string", c)
 			first = false
 		}
-		judge(rt, "c16.string", c16Check, c)
+		judgeH(rt, "c16.string", c16Check, c, gen.Lang().Draw(rt, "history-around"))
 	})
 }
